@@ -419,7 +419,7 @@ def retrogradeFactor(inc: float) -> float:
     Returns:
         ``float``: retrograde factor, :math:`I`, used in EQE equations.
     """
-    return 1 if isInclined(inc) or inc < PI else -1
+    return 1 if isInclined(inc) or inc < 0.5 * PI else -1
 
 
 def universalC2C3(psi: float) -> tuple[float, float]:
